@@ -4,7 +4,7 @@ import struct
 from hypothesis import strategies as st
 
 from harness import build, gen, simnet, wire, refmodel, httpref, deflateref
-from harness.runner import Prop, Enumeration, held, failed, after_every_prelude
+from harness.runner import Prop, Enumeration, held, failed, after_every_prelude, with_noise, with_companion
 from props.c01 import effective_seg, compare_events
 
 VIOL_SENTINEL = b"<<VIOLATING-7f3a>>"
@@ -209,6 +209,8 @@ class C04(Prop):
             "prelude": gen.prelude(),
             # a second live connection in the same process (interleaved with this one, or blocked in a send)
             "companion": gen.companion(),
+            # calls with unsendable arguments that the application tries (and whose error it catches) on the way
+            "noise_calls": gen.noise_calls(),
             # connect() options that must not matter here
             "copts_noise": gen.copts_noise(("poll", "ping_rate", "ping_timeout", "close_timeout")),
             "deflate": st.sampled_from([0, 0, 1, 1, 2]),
@@ -364,7 +366,7 @@ class C04(Prop):
                     "seg": "whole", "deflate": 0, "client_closing": False}
                    for c in ("reserved_bits", "close_bad_utf8", "text_bad_utf8", "control_too_long", "expected_continuation")]
         return [Enumeration("all_65536_headers_x6_contexts", self.header_cases, exhaustive=True),
-                after_every_prelude(battery)]
+                after_every_prelude(battery), with_noise(battery), with_companion(battery)]
 
     def run_header(self, case):
         b0, b1 = case["hdr"]
